@@ -345,6 +345,9 @@ func c11FixedCases() []fxCase {
 				}
 				return fxOperands("\\_SB_.DAA0.MAA0", 0xa4, 1)(tree)
 			}},
+		{id: "R7-opcode-constants-against-the-specification", what: "the bytes the generator writes for each of the 117 opcode constants of the package are the bytes the ACPI specification assigns (the generator and the parser share the constants, so a drifting constant would move both)",
+			tables: [][]byte{fxName(fxNS("", "NAA0"), fxOne...)},
+			check: func(tree *ObjectTree) string { return c11SpecCheck() }},
 		// ---- open findings (expected to fail with the recorded observation) ----
 		{id: "K15b-acquire-derefof-timeout", what: "Acquire(DerefOf(Arg0), 0xffff): the operands of DerefOf are left for the second pass, the timeout word is read from the bytes that follow DerefOf's opcode", tables: [][]byte{fxMethod(fxNS("", "MAA1"), 1, fxCat(c11OpBytes(pOpAcquire), []byte{byte(pOpDerefOf), byte(pOpArg0), 0xff, 0xff}))}, check: fxOperands("\\MAA1", pOpAcquire, 2)},
 		{id: "K15c-condrefof-type6-then-second-name", what: "CondRefOf(DerefOf(Arg0), RefOf(Local0)): DerefOf's operand is taken as CondRefOf's second name, the real second name is left behind as a statement", tables: [][]byte{fxMethod(fxNS("", "MAA1"), 1, fxCat(c11OpBytes(pOpCondRefOf), []byte{byte(pOpDerefOf), byte(pOpArg0), byte(pOpRefOf), byte(pOpLocal0)}))}, check: fxOperands("\\MAA1", pOpCondRefOf, 2)},
